@@ -1,5 +1,5 @@
 CONSTANTS UdpOpensTcp = FALSE
 INIT Init
 NEXT Next
-INVARIANTS DefaultDeny OnlyAuthenticated TcpIsTcp UdpIsUdp IsolationHolds NoSpoofing NoFriendsNoEntry
+INVARIANTS DefaultDeny OnlyAuthenticated TcpIsTcp UdpIsUdp IsolationHolds NoSpoofing NoFriendsNoEntry QuoteBuysNothing
 ACTION_CONSTRAINT DumpEdge
